@@ -415,6 +415,16 @@ class BuiltEq(Stream):
             chord = (lib.I % lib.I.M)(piano__0=mel, violin__0=notes[0])
             score = chord + (lib.V % lib.I.M)(piano__0=mel)
             out = {}
+            # a part holding an empty melody (the tail of a slice), and an object hashed BEFORE it is edited with the in-place forms
+            hollow = (lib.I % lib.I.M)(piano__0=mel, violin__0=mel[len(mel.notes):])
+            if not (hollow == hollow.copy() and hash(hollow) == hash(hollow.copy()) and list(hollow.copy().score.keys()) == list(hollow.score.keys())):
+                out.setdefault("chord", "copy-not-equal:empty-part")
+            edited = (lib.V % lib.I.M)(piano__0=mel, violin__0=notes[0])
+            _ = hash(edited), {edited: 1}
+            edited.score["violin__0"] = Melody([notes[-1].copy(), notes[0].copy()])
+            fresh = (lib.V % lib.I.M)(piano__0=mel, violin__0=Melody([notes[-1].copy(), notes[0].copy()]))
+            if not (edited == fresh and hash(edited) == hash(fresh) and edited in {fresh}):
+                out.setdefault("chord", "stale-hash-after-in-place-edit")
             for nm, objs in (("note", notes), ("melody", [mel]), ("chord", [chord]), ("score", [score])):
                 for x in objs:
                     cp, dc = x.copy(), copy.deepcopy(x)
